@@ -1311,6 +1311,30 @@ class Evaluator:
         store[key] = (full, v)  # keeps the key objects alive (ids stay unique)
         return v
 
+    def _contextmanager(self, fv, args, kwargs, node):
+        """@contextlib.contextmanager: __enter__ runs the generator to its yield and hands the yielded value over, __exit__ resumes it (code
+        after the yield, in particular a `finally:` clean-up, runs when the block is left - normally or by an exception)."""
+        fv2 = FuncVal(self, fv.finfo, closure=fv.closure, bound=fv.bound, defcls=fv.defcls)
+        fv2._cm_bypass = True
+        if getattr(fv, "defaults", None) is not None:
+            fv2.defaults = fv.defaults
+        gen = self.call_func(fv2, args, kwargs, node)
+        state = {}
+
+        def enter():
+            try:
+                state["v"] = next(iter(gen))
+            except StopIteration:
+                raise Raised("RuntimeError", "generator didn't yield", node)
+            return state["v"]
+
+        def exit_(*exc):
+            for _ in gen:
+                raise Raised("RuntimeError", "generator didn't stop", node)
+            return None
+
+        return record("contextmanager", __enter__=_NativeFn(enter), __exit__=_NativeFn(exit_))
+
     def make_closure(self, fi, env):
         fv = FuncVal(self, fi, closure=env)
         a = fi.node.args
@@ -1338,6 +1362,8 @@ class Evaluator:
             raise Undecided(f"function {fi.name} is wrapped by a decorator the folder gives no meaning to ({fi.other_decorators[0][:40]})")
         if getattr(fi, "memo_decorator", None) and not getattr(fv, "_memo_bypass", False):
             return self._memo_call(fv, args, kwargs, node)
+        if getattr(fi, "is_contextmanager", False) and not getattr(fv, "_cm_bypass", False):
+            return self._contextmanager(fv, args, kwargs, node)
         if self.depth > MAX_DEPTH:
             # the repository's own call chains are ~25 deep: this is unbounded recursion in the analysed code
             raise Raised("RecursionError", f"maximum recursion depth exceeded (folded call depth {self.depth})", node)
